@@ -90,7 +90,7 @@ pub fn make_case(prop: &str, run_seed: u64, index: u64, tier: &str) -> Case {
     // "balanced executors" case: several futures of both sides driven by one executor per task
     if matches!(prop, "C06" | "C09" | "C16") && index % 7 == 3 {
         let p = gen::profile_for(prop);
-        return gen::gen_exec_case(&mut rng, &p);
+        return gen::gen_exec_case(&mut rng, &p, tier == "thorough");
     }
     let mut p = gen::profile_for(prop);
     if tier == "thorough" {
